@@ -729,7 +729,15 @@ func (g *gen) rewritePkgRefs(info *types.Info, node ast.Node) ast.Node {
 		// Rename any symbols defined within rewritePkgRefs's node that conflict
 		// with any symbols in the generated file.
 		objName := obj.Name()
-		if pos := obj.Pos(); pos < start || end <= pos || !(g.nameInFileScope(objName) || inNewNames(objName)) {
+		collides := g.nameInFileScope(objName)
+		if _, isType := obj.(*types.TypeName); isType {
+			// The name of a local type is part of what it means: as an embedded
+			// field it decides the identity of the enclosing struct type. It
+			// gives way only to the names this file introduces itself; a name
+			// the package declares is shadowed in the copy as in the original.
+			collides = g.nameIntroduced(objName)
+		}
+		if pos := obj.Pos(); pos < start || end <= pos || !(collides || inNewNames(objName)) {
 			return true
 		}
 		newName := pickName(objName)
@@ -794,6 +802,16 @@ func (g *gen) qualifyImport(name, path string) string {
 }
 
 func (g *gen) nameInFileScope(name string) bool {
+	if g.nameIntroduced(name) {
+		return true
+	}
+	_, obj := g.pkg.Types.Scope().LookupParent(name, token.NoPos)
+	return obj != nil
+}
+
+// nameIntroduced reports whether name is one the generated file adds to what
+// the package declares: an import name or a value variable.
+func (g *gen) nameIntroduced(name string) bool {
 	for _, other := range g.imports {
 		if other.name == name {
 			return true
@@ -804,8 +822,7 @@ func (g *gen) nameInFileScope(name string) bool {
 			return true
 		}
 	}
-	_, obj := g.pkg.Types.Scope().LookupParent(name, token.NoPos)
-	return obj != nil
+	return false
 }
 
 func (g *gen) qualifyPkg(pkg *types.Package) string {
